@@ -128,7 +128,7 @@ def paramStep (st : ParamsSt) (p : Bytes × Bytes × Bool) : R ParamsSt :=
         if endsWith key [0x2A] && !quoted && !startsWith value [0x27] && countByte 0x27 value ≥ 2 then
           match splitExt value with
           | some (cs, _, val) =>
-            if !isAscii cs then .error .invalidHeader       -- decode('ASCII','replace') gives U+FFFD: unknown encoding
+            if !isAscii cs then .error needsOracle          -- decode('ASCII','replace') gives U+FFFD, which codecs.lookup() normalises away ('utf\x8e8' is utf-8): not modelled
             else match knownCharset cs with
             | some true =>
               let d := Percent.unquote val
